@@ -150,10 +150,33 @@ def capExpected (ts : List String) : Option String :=
     | _, _ => none
   | _ => none
 
+/-- `dx <rt case tokens…> out <n> (<ty> <comp> <body>)*n`: one processor reads the inbound stream while
+it writes the outbound packets (one during each inbound `Read` call).  The model has no shared state
+between the directions: the inbound observation is `readAll` of the inbound stream, the outbound wire
+is the encoding of the outbound packets. -/
+def splitOut (ts : List String) : List String × List String :=
+  (ts.takeWhile (· != "out"), (ts.dropWhile (· != "out")).drop 1)
+
+def runModelDx (ts : List String) : String :=
+  let inb := (splitOut ts).1
+  let out := (splitOut ts).2
+  match parseRt inb, out with
+  | some c, n :: rest =>
+    match n.toNat? with
+    | some n =>
+      match parsePkts n rest with
+      | some (ops, _) =>
+        let o := (modelRt c).1
+        obsStr o ++ " owire " ++ hexOfBytes (encodeAll c.codec ops)
+      | none => "bad-case"
+    | none => "bad-case"
+  | _, _ => "bad-case"
+
 /-- `rtw <side> …` is an `rt` case whose chunks were real WebSocket messages: the model does not
 care which transport produced the chunks (`C01_main` quantifies over all chunkings). -/
 def runModel (ts : List String) : String :=
   match ts with
+  | "dx" :: rest => runModelDx rest
   | "rtcap" :: rest => (capExpected rest).getD "unconstrained"
   | "rtl" :: _ :: rest => runModelRt ("rt" :: rest) true
   | "cw" :: rest =>
@@ -179,6 +202,12 @@ def runHoldsRt (caseToks obsToks : List String) : String :=
 
 def runHolds (caseToks obsToks : List String) : String :=
   match caseToks with
+  | "dx" :: rest =>
+    -- the inbound side must satisfy the round-trip predicate; the outbound wire must be the encoding
+    match parseRt (splitOut rest).1, parseObs (obsToks.takeWhile (· != "owire")) with
+    | some c, some o =>
+      boolStr (holds c.pkts o && (" ".intercalate obsToks == runModelDx rest))
+    | _, _ => "false"
   | "rtcap" :: rest =>
     match capExpected rest with
     | some e => boolStr (" ".intercalate obsToks == e)
